@@ -1,4 +1,5 @@
 # gocv executor: instruction semantics, calls (contract / inline / extern), loops, defers, panics.
+import re
 import z3
 from z3 import Int, IntVal, Bool, BoolVal, RealVal, And, Or, Not, Implies, If, Select, Store, K, ForAll
 from ir import short
@@ -124,8 +125,21 @@ class ExecMixin:
                             sg = self.instr_sig(ins)
                             nm_ = self.shortfn(sg[1])
                             k_ = self.site_ord(f2.fn, bi, ni - 1, sg)
-                            self.run_ghost_event(f2, s2, 'after call %s#%d' % (nm_, k_), {'result': (v, ins.get('type'))} if v is not None else None)
+                            ex_ = None
+                            if v is not None:
+                                ex_ = {'result': (v, ins.get('type'))}
+                                if isinstance(v, TupleV):
+                                    _, td_ = self.p.under(ins.get('type'))
+                                    for ti_, tv_ in enumerate(v.v): ex_['result%d' % ti_] = (tv_, td_['elems'][ti_])
+                            self.run_ghost_event(f2, s2, 'after call %s#%d' % (nm_, k_), ex_)
                         self.run_block(f2, bi, pv, s2, ni)
+                    if self.ghost_events(fr):
+                        sg = self.instr_sig(ins)
+                        try:
+                            cv = self.val(ins['callee'], fr, st) if 'callee' in ins else self.val(ins['recv'], fr, st)
+                        except Unsupported:
+                            cv = None
+                        self.run_ghost_event(fr, st, 'before call %s#%d' % (self.shortfn(sg[1]), self.site_ord(fr.fn, bidx, i, sg)), {'callee': (cv, ins.get('sig'))} if cv is not None else None)
                     self.do_call(fr, st, ins, site, cont, spawn=(op == 'Go'))
                     return
             elif op == 'Select':
@@ -228,8 +242,9 @@ class ExecMixin:
             R[nm] = self.type_assert(st, fr, V(ins['x']), ins, site)
         elif op == 'MakeClosure':
             fv = V(ins['fn'])
-            cid = len(st.closures) + 5000 + _cnt[0]
-            _cnt[0] += 1
+            import vals as _vals
+            _vals._cnt[0] += 1
+            cid = 5000 + _vals._cnt[0]
             f = FuncV(IntVal(cid), fv.name, [V(b) for b in ins['bindings']], t=ins['type'])
             st.closures[cid] = f
             R[nm] = f
@@ -644,7 +659,54 @@ class ExecMixin:
             for m in spec['modifies']:
                 keys |= self.mod_entry_keys(m, fn)
             return keys
-        return self.static_mods(fn, lp['body'], set())
+        keys = self.static_mods(fn, lp['body'], set())
+        c = self.contract_for(fn)
+        if c is not None and c.ghost:
+            for ev, stmts, txt in c.ghost:
+                b_ = self.ghost_event_block(fn, ev)
+                if b_ is None or b_ in lp['body']:
+                    keys |= self.ghost_stmt_keys(stmts)
+        return keys
+
+    def ghost_event_block(self, fn, ev):
+        """block index of the instruction a ghost event is attached to (None if unknown: treated as inside every loop)"""
+        m = re.match(r'(before|after) (store|call) (.+)#(\d+)$', ev)
+        if not m:
+            return -1 if ev in ('at return', 'at entry') else None
+        kind, name, k = m.group(2), m.group(3), int(m.group(4))
+        n = 0
+        for b in fn.blocks:
+            for i, ins in enumerate(b['instrs']):
+                if kind == 'store' and ins['op'] == 'Store' and self.store_field(fn, ins) == name:
+                    n += 1
+                    if n == k: return b['index']
+                if kind == 'call' and ins['op'] in ('Call', 'Go', 'Defer'):
+                    sg = self.instr_sig(ins)
+                    if self.shortfn(sg[1]) == name:
+                        n += 1
+                        if n == k: return b['index']
+        return None
+
+    def ghost_stmt_keys(self, stmts):
+        """ghost keys a list of ghost statements may assign (over-approximation, by name)"""
+        ks = set()
+        def lhs_keys(a):
+            if a[0] == 'field':
+                for g in self.c.ghostfields:
+                    tn, gf = g.rsplit('.', 1)
+                    if gf == a[2]:
+                        for full in self.p.types:
+                            if self.match_type(full, tn) and self.p.desc(full).get('kind') == 'named': ks.add(self.ghost_key(full, gf))
+            elif a[0] == 'index': lhs_keys(a[1])
+            elif a[0] == 'id': ks.add('ghost:' + a[1])
+        for s_ in stmts:
+            if s_[0] == 'assign': lhs_keys(s_[1])
+            elif s_[0] == 'forall': lhs_keys(s_[3])
+            elif s_[0] == 'if': ks.update(self.ghost_stmt_keys(s_[2]))
+            elif s_[0] == 'call':
+                nm = s_[1][1][1]
+                if nm in self.c.ghostprocs: ks.update(self.ghost_stmt_keys(self.c.ghostprocs[nm][1]))
+        return ks
 
     def static_mods(self, fn, blocks, seen):
         keys = set()
@@ -787,6 +849,7 @@ class ExecMixin:
             return {e[4:]}
         if e.split('[')[0] in self.c.ghostmaps or e in self.c.ghostglobals:
             return {'ghost:' + e.split('[')[0]}
+        e = re.sub(r'\[[^\]]*\]', '', e)
         parts = e.split('.')
         if len(parts) < 2: raise Unsupported('bad modifies entry %r' % entry)
         root = parts[0]
